@@ -421,7 +421,7 @@ def stage_ms_formulas(ctx):
         ctx.explored += 1
         q0 = float((np.abs(amn[:, :, 0] + amn[:, :, 1]) ** 2).sum()) * 4 * np.pi / k ** 2
         qp2 = float((np.abs(amn[:, :, 0] - amn[:, :, 1]) ** 2).sum()) * 4 * np.pi / k ** 2
-        qp4 = float((np.abs(amn[:, :, 0] - 1j * amn[:, :, 1]) ** 2).sum()) * 4 * np.pi / k ** 2
+        qp4 = float((np.abs(amn[:, :, 0] + 1j * amn[:, :, 1]) ** 2).sum()) * 4 * np.pi / k ** 2
         for p, want, nm_ in (((1, 0), q0, "0"), ((0, 1), qp2, "pi/2"), ((1, 1), qp4, "pi/4"), ((-1, 0), q0, "pi"),
                              ((-1, -1), qp4, "5pi/4")):
             v = float(th._calc_cscat(sph, k, 1.33, to_vector(p), amn=amn, lmax=lmax))
@@ -732,6 +732,56 @@ def stage_multisphere(ctx):
     report(ctx, "C03ms", exprs, metas, ["raw_cross_sections"])
 
 
+def stage_clusters(ctx):
+    """energy bookkeeping of the cluster theory on clusters WITHOUT mirror symmetry about the polarisation (dimers and
+    trimers lying obliquely in the x-y plane, polarisation off the axes): for real indices the absorption vanishes
+    (scattering from the coefficient sums = extinction from the optical theorem), for absorbing ones it is positive.
+    (The solid-angle integral of a CLUSTER's public scattering matrix is not compared: the property asks for the integral
+    forms for spheres; on the unchanged tree it differs from the coefficient sum by ~1e-3 for dimers.)"""
+    import numpy as np
+    from holopy.scattering import Sphere, Spheres, Multisphere, calc_cross_sections, calc_scat_matrix
+    from holopy.core.metadata import detector_points
+    rng = ctx.subrng("clusters")
+    for kcase in range(ctx.n(8, 40)):
+        nm, wl = gen_medium(rng)
+        k = 2 * np.pi / (wl / nm)
+        nsph = rng.choice([2, 2, 3])
+        absorbing = kcase % 4 == 3
+        r = [rng.uniform(1.5, 4.0) / k for _ in range(nsph)]
+        ang = rng.uniform(0, 2 * np.pi)
+        cs = [(0.0, 0.0, 0.0)]
+        for i in range(1, nsph):
+            d = (r[i - 1] + r[i]) * rng.uniform(1.05, 1.6)
+            a = ang + rng.uniform(-0.9, 0.9)
+            cs.append((cs[-1][0] + d * np.cos(a), cs[-1][1] + d * np.sin(a), cs[-1][2] + rng.uniform(-0.3, 0.3) * d))
+        ns = [complex(rng.uniform(1.15, 1.5) * nm, (rng.uniform(0.005, 0.05) if absorbing else 0.0)) for _ in range(nsph)]
+        sc = Spheres([Sphere(n=(n if n.imag else n.real), r=rr, center=c) for n, rr, c in zip(ns, r, cs)], warn=False)
+        g = rng.uniform(0, np.pi)
+        pol = (float(np.cos(g)), float(np.sin(g)))
+        with warnings.catch_warnings():
+            warnings.simplefilter("ignore")
+            try:
+                cscat, cabs, cext, asym = [float(v) for v in calc_cross_sections(sc, nm, wl, pol, theory=Multisphere(qeps1=1e-9, qeps2=1e-9)).values]
+            except Exception as e:  # noqa
+                if type(e).__name__ == "MultisphereFailure":
+                    ctx.count("clusters:no-convergence")
+                    continue
+                raise
+        ctx.explored += 1
+        ctx.count("clusters:%d:%s" % (nsph, "absorbing" if absorbing else "real"))
+        ctx.nontriv(("cluster", nsph, absorbing, kcase))
+        data = dict(kind="cluster", n=ns, r=r, centers=cs, nm=nm, wl=wl, pol=pol, cross_sections=[cscat, cabs, cext, asym])
+        if not all(math.isfinite(v) for v in (cscat, cabs, cext, asym)) or not (cscat > 0 and -1 <= asym <= 1):
+            ctx.violation("ms:cluster:ranges", "cluster cross sections not finite / cscat <= 0 / g outside [-1, 1]", data)
+            continue
+        if not absorbing:
+            if not STAT.see("cluster:cabs=0(real)", abs(cabs), 5e-4 * cext):   # solver accuracy: <= 5e-5 measured with tight qeps
+                ctx.violation("ms:cluster-cabs", "a cluster of real-index spheres lying obliquely to the polarisation has a non-zero "
+                              "absorption cross section (%.3g of cext): scattering from the coefficient sums and extinction from the "
+                              "optical theorem disagree" % (cabs / cext), data)
+        elif not cabs > 0:
+            ctx.violation("ms:cluster-cabs-negative", "a cluster of absorbing spheres has cabs <= 0", data)
+
 def stage_multisphere_large(ctx):
     """one-sphere cluster vs single-sphere theory near the upper end of the cluster code's single-sphere range
     (size parameter 14-19, moderate index so that the default truncation tolerances are adequate): all four numbers,
@@ -866,6 +916,7 @@ def run(ctx):
     timed("media-series", stage_media_series, ctx)
     timed("multisphere", stage_multisphere, ctx)
     timed("multisphere-large", stage_multisphere_large, ctx)
+    timed("clusters", stage_clusters, ctx)
     timed("quadrature-large", stage_quadrature_large, ctx)
     ctx.notes.append("stage wall times: " + ", ".join(times))
     ctx.notes.append("max observed error / tolerance per check: " +
